@@ -403,6 +403,12 @@ def _scenario(R, sc, in_thread):
             obs["unknown"] = term.unknown[:3]
     for c in closers:
         c.close()
+    if inp is not None and "tsafe" in objs:
+        # housekeeping after the verdict's snapshot: the pipes of threadsafe triggers are never
+        # closed by the library; thousands of scenarios in one process would push descriptor
+        # numbers past what select() accepts
+        from .c08 import release_trigger_fds
+        release_trigger_fds(inp, [objs["tsafe"]])
     # leave the rig clean for the next scenario
     termios.tcsetattr(fd, termios.TCSANOW, R.cooked)
     fcntl.fcntl(fd, fcntl.F_SETFL, R.flags0)
@@ -755,6 +761,7 @@ def run_sigint(ctx, case):
     inp = Input(R.pty.stream, sigint_event=case["sigint_event"])
     base = snap(fd)
     got = {"kbi": 0, "events": 0, "none": 0}
+    R.fp.pause()         # real signals: no instrumentation callbacks in the way
     delay = case["delay"]
     th = threading.Thread(target=lambda: (time.sleep(delay), os.kill(os.getpid(), signal.SIGINT)))
     try:
@@ -793,6 +800,7 @@ def run_sigint(ctx, case):
         th.join()
     except KeyboardInterrupt:
         got["late"] = got.get("late", 0) + 1
+    R.fp.resume()
     after = snap(fd)
     diffs = [k for k in base if base[k] != after[k]]
     if got.get("nonblocking"):
@@ -807,10 +815,14 @@ def run_sigint(ctx, case):
 
 
 def run_storm(ctx, case):
-    """real SIGINTs (default handler, sigint_event off) fired from another thread within
-    microseconds of a key arriving, the application surviving them with try/except around
-    each request: between requests the stream is never left non-blocking"""
+    """real SIGINTs (default handler, sigint_event off) sent by ANOTHER PROCESS a random number of
+    microseconds after a key arrived (a thread of this process could only send while the
+    requesting thread has let go of the interpreter lock, i.e. hardly ever at the interesting
+    moments), the application surviving them with try/except around each request: between
+    requests the stream is never left non-blocking"""
     import random
+    import struct
+    import traceback
     from curtsies import Input
     R = rig()
     fd = R.pty.slave
@@ -821,71 +833,97 @@ def run_storm(ctx, case):
     rng = random.Random(case["seed"])
     inp = Input(R.pty.stream, sigint_event=False)
     base_flags = fcntl.fcntl(fd, fcntl.F_GETFL)
-    go = threading.Event()
-    done = threading.Event()
-    stop = []
-    delays = [rng.random() * case["max_delay_us"] * 1e-6 for _ in range(case["trials"])]
-
-    def helper():
-        pid = os.getpid()
-        for d in delays:
-            go.wait()
-            go.clear()
-            if stop:
-                return
-            t = time.perf_counter() + d
-            while time.perf_counter() < t:
-                pass
-            os.kill(pid, signal.SIGINT)
-            done.set()
-    th = threading.Thread(target=helper, name="storm")
+    R.fp.pause()         # real signals: no instrumentation callbacks in the way (see inject.pause)
+    to_child_r, to_child_w = os.pipe()
+    from_child_r, from_child_w = os.pipe()
+    parent = os.getpid()
+    child = os.fork()
+    if child == 0:
+        # sender: for each 8-byte delay read, spin that long, signal the parent, acknowledge
+        try:
+            signal.signal(signal.SIGINT, signal.SIG_IGN)
+            os.close(to_child_w)
+            os.close(from_child_r)
+            while True:
+                b = os.read(to_child_r, 8)
+                if len(b) < 8:
+                    break
+                t = struct.unpack("d", b)[0]      # a point on the system-wide monotonic clock
+                while time.perf_counter() < t:
+                    pass
+                os.kill(parent, signal.SIGINT)
+                os.write(from_child_w, b"k")
+        finally:
+            os._exit(0)
+    os.close(to_child_r)
+    os.close(from_child_w)
+    os.set_blocking(from_child_r, False)
     hits = {"interrupted_requests": 0, "late": 0, "left_nonblocking": 0, "trials": 0}
     witness = None
+
     try:
         with inp:
-            th.start()
             for k in range(case["trials"]):
-                try:
-                    os.write(R.pty.master, b"k")
-                    done.clear()
-                    go.set()
+                st = {"started": False, "requested": False, "acked": False, "settled": False}
+                while not st["settled"]:
+                    # a late signal may raise anywhere in here: the trial resumes where it was
                     try:
-                        inp.send(0.02)
-                    except KeyboardInterrupt:
-                        hits["interrupted_requests"] += 1
-                    # between requests
-                    fl = fcntl.fcntl(fd, fcntl.F_GETFL)
-                    if fl & os.O_NONBLOCK and not base_flags & os.O_NONBLOCK:
-                        hits["left_nonblocking"] += 1
-                        witness = witness or k
-                        fcntl.fcntl(fd, fcntl.F_SETFL, base_flags)
-                    while not done.wait(0.0005):
-                        pass
-                    time.sleep(0)          # let a pending handler run here
-                except KeyboardInterrupt:
-                    hits["late"] += 1
-                    while not done.is_set():
-                        try:
-                            done.wait(0.001)
-                        except KeyboardInterrupt:
+                        if not st["started"]:
+                            st["started"] = True
+                            os.write(R.pty.master, b"k")
+                            # the request starts 400 us from now (time for the sender to wake up) and the
+                            # signal is due a random number of microseconds into it
+                            st["t_start"] = time.perf_counter() + 0.0004
+                            os.write(to_child_w, struct.pack("d", st["t_start"] + rng.random() * case["max_delay_us"] * 1e-6))
+                        if not st["requested"]:
+                            st["requested"] = True
+                            tb = None
+                            while time.perf_counter() < st["t_start"]:
+                                pass
+                            try:
+                                inp.send(0.02)
+                            except KeyboardInterrupt:
+                                hits["interrupted_requests"] += 1
+                                tb = traceback.format_exc().splitlines()[-6:]
+                            # between requests
+                            fl = fcntl.fcntl(fd, fcntl.F_GETFL)
+                            if fl & os.O_NONBLOCK and not base_flags & os.O_NONBLOCK:
+                                hits["left_nonblocking"] += 1
+                                if witness is None:
+                                    hits["where_the_interrupt_landed"] = tb
+                                    witness = k
+                                fcntl.fcntl(fd, fcntl.F_SETFL, base_flags)
+                        deadline = time.monotonic() + 2
+                        while not st["acked"] and time.monotonic() < deadline:
+                            try:
+                                st["acked"] = os.read(from_child_r, 1) == b"k"
+                            except BlockingIOError:
+                                pass
+                        time.sleep(0.0002)       # a pending handler runs here at the latest
+                        while inp.send(0) is not None:
                             pass
+                        st["settled"] = True
+                    except KeyboardInterrupt:
+                        hits["late"] += 1
                 hits["trials"] += 1
-                try:
-                    while inp.send(0) is not None:
-                        pass
-                except KeyboardInterrupt:
-                    hits["late"] += 1
     except KeyboardInterrupt:
         hits["late"] += 1
     finally:
-        stop.append(1)
-        go.set()
         try:
-            th.join(5)
-        except KeyboardInterrupt:
+            os.close(to_child_w)
+            os.waitpid(child, 0)
+        except (OSError, KeyboardInterrupt):
             pass
+        for f in (from_child_r,):
+            try:
+                os.close(f)
+            except OSError:
+                pass
+        R.fp.resume()
+    hits.pop("_seen", None)
     for k, v in hits.items():
-        ctx.count("storm_" + k, v)
+        if isinstance(v, int):
+            ctx.count("storm_" + k, v)
     ctx.judge(hits["left_nonblocking"] == 0, case, ("C12", "storm", case["seed"]),
               "C12:interrupted-while-entering-nonblocking", "stream blocking between requests",
               hits, {"first_trial": witness}, nontrivial=hits["interrupted_requests"] > 0)
